@@ -642,13 +642,10 @@ class DCM(np.ndarray):
                [-0.29531805, -0.5473806 ,  0.        ]])
 
         """
-        trace_R = self.A.trace()
-        if np.isclose(trace_R, 3.0):
-            return np.zeros((3, 3))
-        theta = np.arccos((self.A.trace()-1)/2)
-        nom = theta * (self.A.T - self.A)
-        denom = 2*np.sin(theta)
-        logR = nom / denom
+        # (R^T-R)/(2*sin(theta)) is minus the skew-symmetric matrix of the
+        # rotation axis, which to_axisangle() obtains robustly for any angle
+        axis, theta = self.to_axisangle()
+        logR = -theta * skew(axis)
         return logR
 
     @property
